@@ -103,6 +103,13 @@ def exhaustive(tier):
             for side in ("min", "max"):
                 for v in vals:
                     yield {"spec": {"kind": kind, "req": False, "opts": {side: b}, "validator": None}, "value": v}
+    # host names with a trailing root dot, dotted quads with one (NOT an address: a name, kept as it is), with and without addresses allowed
+    for allow in (False, True):
+        for v in ("10.0.0.1.", "10.0.0.1", "host.example.", "host.example", "1.2.3.4..", ".", "a.", "255.255.255.255.", "256.1.1.1", "256.1.1.1.", "1.2.3", "1.2.3."):
+            yield {"spec": {"kind": "host", "req": False, "opts": {"allow_ipv4": allow}, "validator": None}, "value": v}
+    # boolean tokens are compared in lower case; characters whose case FOLDING (not lower-casing) spells a token are not tokens
+    for v in ("o\ufb00", "fal\u017fe", "ye\u017f", "\uff54\uff52\uff55\uff45", "TRUE", "\u0131", "of\uff46", "\u212a", "n\u0307", "ye\u0073\u0323", "\u1e9e", "no\u200b"):
+        yield {"spec": {"kind": "bool", "req": False, "opts": {}, "validator": None}, "value": v}
     # URL syntax: a scheme is required (a host alone is not a URL)
     for v in ("//host/path", "//cdn.example.com/lib.js", "//h", "http://h.example/p", "https://h.example:8080/p?q=1", "ftp://h", "example.com", "/path", "://x", "1http://x",
               "//", "///x", "", "h.example/p", "?q=1", "#frag", "http:/", "HTTP://H.EXAMPLE/"):
